@@ -5,4 +5,4 @@ Extraction Language OCaml.
 Extraction "C11/c11_model.ml" instantiate clone subst_node generate_cache_key build_map
   substitute_generic_type_name subst_name3 call_cached call_pinned
   uses_child_outside uses_scalar_outside cloned_child_fields subst_child_fields s2l
-  resolve_complex_type resolve_type_in_context impl_type_args fresh_inst find_impl_for_struct run run_main run_calls.
+  resolve_complex_type resolve_type_in_context impl_type_args fresh_inst find_impl_for_struct run run_main run_calls run_mono run_main_mono run_calls_mono.
